@@ -1,6 +1,3 @@
-//@unit py_perbase
-//@serves C20
-//@backend verus
 // Python bindings (pybigtools/src/lib.rs): the per-base array fillers `to_array` (bigWig) and
 // `to_entry_array` (bigBed) and the integer part of the range defaulting (`start_end_length_inner`,
 // `bigwig_start_end_length`, `bigbed_start_end_length`) and of the range clamp of `intervals_to_array`.
@@ -15,21 +12,69 @@ use vstd::std_specs::ops::*;
 use vstd::std_specs::convert::FromSpec;
 verus! {
 global size_of usize == 8;
-//@include ../_shared/floats.rs
+// ---- shared float prelude -------------------------------------------------
+// Rust float operators are total; Verus models their results as uninterpreted
+// functions (`add_spec`, `mul_spec`, `from_spec`, ...).  The axioms below say
+// only (1) the operators have no precondition and (2) the exec operator returns
+// the value of its spec function (determinism).  Nothing numerical is assumed.
+mod float_ax {
+use vstd::prelude::*;
+use vstd::std_specs::ops::*;
+use vstd::std_specs::convert::FromSpec;
+pub broadcast axiom fn ax_f64_mul_total(a: f64, b: f64) ensures #[trigger] a.mul_req(b);
+pub broadcast axiom fn ax_f64_add_total(a: f64, b: f64) ensures #[trigger] a.add_req(b);
+pub broadcast axiom fn ax_f64_sub_total(a: f64, b: f64) ensures #[trigger] a.sub_req(b);
+pub broadcast axiom fn ax_f64_div_total(a: f64, b: f64) ensures #[trigger] a.div_req(b);
+pub broadcast axiom fn ax_f32_add_total(a: f32, b: f32) ensures #[trigger] a.add_req(b);
+pub broadcast axiom fn ax_f32_sub_total(a: f32, b: f32) ensures #[trigger] a.sub_req(b);
+pub broadcast group float_total { ax_f64_mul_total, ax_f64_add_total, ax_f64_sub_total, ax_f64_div_total, ax_f32_add_total, ax_f32_sub_total }
+pub axiom fn float_det()
+    ensures
+        <f64 as AddSpec<f64>>::obeys_add_spec(), <f64 as MulSpec<f64>>::obeys_mul_spec(),
+        <f64 as SubSpec<f64>>::obeys_sub_spec(), <f64 as DivSpec<f64>>::obeys_div_spec(),
+        <f32 as AddSpec<f32>>::obeys_add_spec(), <f32 as SubSpec<f32>>::obeys_sub_spec(),
+        <f64 as FromSpec<u32>>::obeys_from_spec(), <f64 as FromSpec<f32>>::obeys_from_spec();
+}
+broadcast use float_ax::float_total;
+pub uninterp spec fn fmin(a: f64, b: f64) -> f64;
+pub uninterp spec fn fmax(a: f64, b: f64) -> f64;
+pub assume_specification [f64::min] (a: f64, b: f64) -> (r: f64) ensures r == fmin(a, b);
+pub assume_specification [f64::max] (a: f64, b: f64) -> (r: f64) ensures r == fmax(a, b);
+// float constants (rule R12c): Verus has no model of core::f64 associated consts; each is an
+// uninterpreted spec constant, distinct names so that swapping two of them is visible.
+pub uninterp spec fn spec_f64_max() -> f64;
+pub uninterp spec fn spec_f64_min() -> f64;
+pub uninterp spec fn spec_f64_min_positive() -> f64;
+pub uninterp spec fn spec_f64_nan() -> f64;
+pub uninterp spec fn spec_f64_infinity() -> f64;
+pub uninterp spec fn spec_f64_neg_infinity() -> f64;
+pub uninterp spec fn spec_f64_epsilon() -> f64;
+#[verifier::external_body] pub fn fconst_f64_max() -> (r: f64) ensures r == spec_f64_max() { f64::MAX }
+#[verifier::external_body] pub fn fconst_f64_min() -> (r: f64) ensures r == spec_f64_min() { f64::MIN }
+#[verifier::external_body] pub fn fconst_f64_min_positive() -> (r: f64) ensures r == spec_f64_min_positive() { f64::MIN_POSITIVE }
+#[verifier::external_body] pub fn fconst_f64_nan() -> (r: f64) ensures r == spec_f64_nan() { f64::NAN }
+#[verifier::external_body] pub fn fconst_f64_infinity() -> (r: f64) ensures r == spec_f64_infinity() { f64::INFINITY }
+#[verifier::external_body] pub fn fconst_f64_neg_infinity() -> (r: f64) ensures r == spec_f64_neg_infinity() { f64::NEG_INFINITY }
+#[verifier::external_body] pub fn fconst_f64_epsilon() -> (r: f64) ensures r == spec_f64_epsilon() { f64::EPSILON }
 
-//@extract struct bigtools/src/bbi.rs Value
-//@rule R8
-//@end
+#[derive(Copy, Clone)]
+pub struct Value {
+    pub start: u32,
+    pub end: u32,
+    pub value: f32,
+}
 // `rest: String` is carried along untouched; the derive is dropped (Verus cannot derive through String).
-//@extract struct bigtools/src/bbi.rs BedEntry
-//@rule R8
-//@sub /#\[derive\([^)]*\)\]\n/ => "" min=0
-//@end
+pub struct BedEntry {
+    pub start: u32,
+    pub end: u32,
+    pub rest: String,
+}
 // `name: String`, `length: u32`, `id: u32`
-//@extract struct bigtools/src/bbi/bbiread.rs ChromInfo
-//@rule R8
-//@sub /#\[derive\([^)]*\)\]\n/ => "" min=0
-//@end
+pub struct ChromInfo {
+    pub name: String,
+    pub length: u32,
+    pub id: u32,
+}
 
 // =====================================================================================
 // shims (ASSUMED; each is listed in NOTES.md)
@@ -264,44 +309,39 @@ proof fn lemma_cnt_not_nan(n: nat)
 //   `for interval in iter {` -> `loop { let interval = match iter.next() { None => break, Some(x) => x };`
 //   `for val in v.iter_mut() {` -> index loop `let n__ = v.len(); for i__2 in 0..n__ { let val = v.index_mut(i__2);`
 //   `X as f64` (f32 -> f64 widening) -> `f64_of_f32(X)`;  `f64::NAN` -> `fconst_f64_nan()` (R12c)
-//@extract fn pybigtools/src/lib.rs to_array
-//@rule R6
-//@rule R12c
-//@sub /<I: Iterator<Item = Result<\w+, _BBIReadError>>>/ => "" min=1
-//@sub /\biter: I\b/ => iter: &mut VIter<Value> min=1
-//@sub /mut v: ArrayViewMut<'_, f64, numpy::Ix1>/ => v: &mut VArr min=1
-//@sub /\b_BBIReadError\b/ => ReadErr min=0
-//@sub /for interval in iter \{/ => loop {\n        let interval = match iter.next() { None => { break; } Some(r__) => r__ }; min=1
-//@sub /for val in v\.iter_mut\(\) \{/ => let n__ = v.len();\n    for i__2 in 0..n__ {\n        let val = v.index_mut(i__2); min=0
-//@sub /\b(\w+(?:\.\w+)*) as f64\b/ => f64_of_f32(\1) min=0
-//@ret r
-//@sig
+fn to_array(
+    start: i32,
+    end: i32,
+    iter: &mut VIter<Value>,
+    missing: f64,
+    v: &mut VArr,
+) -> (r: Result<(), ReadErr>)
     requires
-        [[L: bw/pre_one_cell_per_requested_base]]
+        
         // the caller allocates `end - start` cells (intervals_to_array: `vec![missing; (end - start) as usize]`
         // or the size check on a passed `arr`); `end - start` must not overflow i32
         start <= end, end - start <= i32::MAX, old(v)@.len() == end - start,
-        [[L: bw/pre_query_contract]]
+        
         // ASSUMED contract of `get_interval(chrom, max(start,0), min(end,length))` (C03; bw_dec, iters)
         bw_answer(oks(old(iter).rest(), n_ok(old(iter).rest())), start, end),
-        [[L: bw/pre_finite_data]]
+        
         bw_no_nan(oks(old(iter).rest(), n_ok(old(iter).rest()))),
     ensures
-        [[L: bw/one_number_per_base]]
+        
         final(v)@.len() == end - start,
-        [[L: bw/error_iff_stream_has_an_error]]
+        
         r is Err <==> !all_ok(old(iter).rest()),
-        [[L: bw/error_item_is_returned_at_once]]
+        
         r is Err ==> final(iter).rest() == old(iter).rest().subrange(n_ok(old(iter).rest()) + 1, old(iter).rest().len() as int),
-        [[L: bw/covered_bases_hold_the_stored_value]]
+        
         r is Ok ==> forall|q: int, j: int| 0 <= q < end - start && 0 <= j < old(iter).rest().len()
             && inside((#[trigger] old(iter).rest()[j])->Ok_0.start, old(iter).rest()[j]->Ok_0.end, start + q)
             ==> #[trigger] final(v)@[q] == f64_of(old(iter).rest()[j]->Ok_0.value),
-        [[L: bw/uncovered_bases_hold_missing]]
+        
         r is Ok ==> forall|q: int| 0 <= q < end - start
             && bw_uncovered(oks(old(iter).rest(), old(iter).rest().len() as int), old(iter).rest().len() as int, start + q)
             ==> #[trigger] final(v)@[q] == missing,
-//@open
+{
     let ghost items = iter.rest();
     let ghost nk = n_ok(items);
     let ghost vals = oks(items, nk);
@@ -312,12 +352,15 @@ proof fn lemma_cnt_not_nan(n: nat)
         lemma_n_ok_bounds(items);
         assert(items.subrange(0, items.len() as int) =~= items);
     }
-//@loop 1
+
+    assert((v.len()) == ((end - start) as usize));
+    v.fill(fconst_f64_nan());
+    loop 
         invariant_except_break
-            [[L: bw/loop/progress]]
+            
             0 <= j <= nk,
         invariant
-            [[L: bw/loop/frame]]
+            
             items == old(iter).rest(), nk == n_ok(items), vals == oks(items, nk), 0 <= nk <= items.len(),
             forall|i: int| 0 <= i < nk ==> (#[trigger] items[i]) is Ok,
             nk < items.len() ==> items[nk] is Err,
@@ -325,51 +368,57 @@ proof fn lemma_cnt_not_nan(n: nat)
             bw_answer(vals, start, end), bw_no_nan(vals),
             is_nan_spec(spec_f64_nan()),
             iter.rest() == items.subrange(j, items.len() as int),
-            [[L: bw/loop/covered_so_far_hold_their_value]]
+            
             forall|q: int, k: int| 0 <= q < v@.len() && 0 <= k < j && inside((#[trigger] vals[k]).start, vals[k].end, start + q)
                 ==> #[trigger] v@[q] == f64_of(vals[k].value),
-            [[L: bw/loop/rest_still_nan]]
+            
             forall|q: int| 0 <= q < v@.len() && bw_uncovered(vals, j, start + q) ==> is_nan_spec(#[trigger] v@[q]),
         ensures
-            [[L: bw/loop/exit_all_consumed]]
+            
             j == nk, nk == items.len(),
         decreases
-            [[L: bw/loop/termination]]
+            
             items.len() - j,
-//@at /let interval = interval\?;/ before
+{
+        let interval = match iter.next() { None => { break; } Some(r__) => r__ };
+
         proof {
             assert(iter.rest() =~= items.subrange(j + 1, items.len() as int));
             assert(interval == items[j]);
             if interval is Err { assert(j == nk); }
         }
-//@at /let interval = interval\?;/ after
+        let interval = interval?;
+
         proof {
             assert(j < nk);
             assert(interval == vals[j]);
             assert(start <= vals[j].start && vals[j].start <= vals[j].end && vals[j].end <= end);
         }
-//@at /let interval_end = / after
+        let interval_start = ((interval.start as i32) - start) as usize;
+        let interval_end = ((interval.end as i32) - start) as usize;
+
         proof {
-            assert(interval_start == interval.start - start && interval_end == interval.end - start); [[L: bw/index_arithmetic_does_not_wrap]]
-            assert(interval_start <= interval_end && interval_end <= v@.len()); [[L: bw/cell_range_inside_the_array]]
+            assert(interval_start == interval.start - start && interval_end == interval.end - start); 
+            assert(interval_start <= interval_end && interval_end <= v@.len()); 
         }
-//@loop 2
+        for i in interval_start..interval_end 
             invariant
-                [[L: bw/inner/frame]]
+                
                 0 <= j < nk, interval == vals[j], vals == oks(items, nk),
                 start <= end, end - start <= i32::MAX, v@.len() == end - start,
                 bw_answer(vals, start, end), bw_no_nan(vals), is_nan_spec(spec_f64_nan()),
                 interval_start == interval.start - start, interval_end == interval.end - start,
                 interval_start <= interval_end, interval_end <= v@.len(),
-                [[L: bw/inner/earlier_values_not_overwritten]]
+                
                 forall|q: int, k: int| 0 <= q < v@.len() && 0 <= k < j && inside((#[trigger] vals[k]).start, vals[k].end, start + q)
                     ==> #[trigger] v@[q] == f64_of(vals[k].value),
-                [[L: bw/inner/this_value_filled_up_to_i]]
+                
                 forall|q: int| interval_start <= q < i ==> #[trigger] v@[q] == f64_of(interval.value),
-                [[L: bw/inner/rest_still_nan]]
+                
                 forall|q: int| 0 <= q < v@.len() && bw_uncovered(vals, j, start + q) && !(interval_start <= q < i)
                     ==> is_nan_spec(#[trigger] v@[q]),
-//@at /let val = \*v\.index_mut\(i\);/ before
+{
+
             proof {
                 float_ax::float_det();
                 // disjointness: no earlier value contains base start + i, so the cell still holds the NaN marker
@@ -377,25 +426,35 @@ proof fn lemma_cnt_not_nan(n: nat)
                     assert(vals[k].end <= vals[j].start);
                 }
                 assert(bw_uncovered(vals, j, start + i));
-                assert(is_nan_spec(v@[i as int])); [[L: bw/summing_arm_is_dead_for_disjoint_values]]
+                assert(is_nan_spec(v@[i as int])); 
             }
-//@loopend 1
+            let val = *v.index_mut(i);
+            *v.index_mut(i) = if val.is_nan() {
+                f64_of_f32(interval.value)
+            } else {
+                val + f64_of_f32(interval.value)
+            };
+        }
+    
         proof { j = j + 1; }
-//@at /^\s*let n__ = v\.len\(\);/ before
+}
+
     proof {
         assert(vals =~= oks(items, items.len() as int));
     }
-//@loop 3
+    let n__ = v.len();
+    for i__2 in 0..n__ 
         invariant
-            [[L: bw/final/frame]]
+            
             v@.len() == end - start, n__ == v@.len(), j == nk, nk == items.len(), vals == oks(items, nk), bw_no_nan(vals),
-            [[L: bw/final/covered_untouched]]
+            
             forall|q: int, k: int| 0 <= q < v@.len() && 0 <= k < nk && inside((#[trigger] vals[k]).start, vals[k].end, start + q)
                 ==> #[trigger] v@[q] == f64_of(vals[k].value),
-            [[L: bw/final/uncovered_replaced_up_to_i]]
+            
             forall|q: int| 0 <= q < i__2 && bw_uncovered(vals, nk, start + q) ==> #[trigger] v@[q] == missing,
             forall|q: int| i__2 <= q < v@.len() && bw_uncovered(vals, nk, start + q) ==> is_nan_spec(#[trigger] v@[q]),
-//@at /let val = v\.index_mut\(i__2\);/ before
+{
+
         proof {
             // a covered cell holds a stored value, which is not NaN (finite data): it is kept
             if !bw_uncovered(vals, nk, start + i__2) {
@@ -404,7 +463,10 @@ proof fn lemma_cnt_not_nan(n: nat)
                 assert(!is_nan_spec(v@[i__2 as int]));
             }
         }
-//@at /^\s*Ok\(\(\)\)\s*$/ before
+        let val = v.index_mut(i__2);
+        *val = if val.is_nan() { missing } else { *val };
+    }
+
     proof {
         assert forall|q: int, jj: int| 0 <= q < end - start && 0 <= jj < items.len()
             && inside((#[trigger] items[jj])->Ok_0.start, items[jj]->Ok_0.end, start + q)
@@ -412,7 +474,8 @@ proof fn lemma_cnt_not_nan(n: nat)
             assert(vals[jj] == items[jj]->Ok_0);
         }
     }
-//@end
+    Ok(())
+}
 
 // =====================================================================================
 // to_entry_array (bigBed, per base): number of entries covering each base
@@ -421,40 +484,35 @@ proof fn lemma_cnt_not_nan(n: nat)
 // to the query (bb_dec `exactly_touching_entries_in_order`): an entry may start before `start` and end after
 // `end`; the filler has to clamp it to the requested range.  `be/cell_range_is_the_entry_clamped_to_the_request`
 // states exactly that about the two bounds the code computes.
-//@extract fn pybigtools/src/lib.rs to_entry_array
-//@rule R6
-//@rule R12c
-//@sub /<I: Iterator<Item = Result<\w+, _BBIReadError>>>/ => "" min=1
-//@sub /\biter: I\b/ => iter: &mut VIter<BedEntry> min=1
-//@sub /mut v: ArrayViewMut<'_, f64, numpy::Ix1>/ => v: &mut VArr min=1
-//@sub /\b_BBIReadError\b/ => ReadErr min=0
-//@sub /for interval in iter \{/ => loop {\n        let interval = match iter.next() { None => { break; } Some(r__) => r__ }; min=1
-//@sub /for val in v\.iter_mut\(\) \{/ => let n__ = v.len();\n    for i__2 in 0..n__ {\n        let val = v.index_mut(i__2); min=0
-//@sub /\b(\w+(?:\.\w+)*) as f64\b/ => f64_of_f32(\1) min=0
-//@ret r
-//@sig
+fn to_entry_array(
+    start: i32,
+    end: i32,
+    iter: &mut VIter<BedEntry>,
+    missing: f64,
+    v: &mut VArr,
+) -> (r: Result<(), ReadErr>)
     requires
-        [[L: be/pre_one_cell_per_requested_base]]
+        
         start <= end, end - start <= i32::MAX, old(v)@.len() == end - start,
-        [[L: be/pre_query_contract_entries_touch_the_request_unclipped]]
+        
         // ASSUMED contract of the bigBed range query (bb_dec, iters); entries are NOT assumed to lie inside [start, end)
         bb_answer(oks(old(iter).rest(), n_ok(old(iter).rest())), start, end),
     ensures
-        [[L: be/one_number_per_base]]
+        
         final(v)@.len() == end - start,
-        [[L: be/error_iff_stream_has_an_error]]
+        
         r is Err <==> !all_ok(old(iter).rest()),
-        [[L: be/error_item_is_returned_at_once]]
+        
         r is Err ==> final(iter).rest() == old(iter).rest().subrange(n_ok(old(iter).rest()) + 1, old(iter).rest().len() as int),
-        [[L: be/covered_bases_hold_the_number_of_covering_entries]]
+        
         r is Ok ==> forall|q: int| 0 <= q < end - start
             && count_at(oks(old(iter).rest(), old(iter).rest().len() as int), old(iter).rest().len() as int, start + q) > 0
             ==> #[trigger] final(v)@[q] == cnt_f(count_at(oks(old(iter).rest(), old(iter).rest().len() as int), old(iter).rest().len() as int, start + q)),
-        [[L: be/uncovered_bases_hold_missing]]
+        
         r is Ok ==> forall|q: int| 0 <= q < end - start
             && count_at(oks(old(iter).rest(), old(iter).rest().len() as int), old(iter).rest().len() as int, start + q) == 0
             ==> #[trigger] final(v)@[q] == missing,
-//@open
+{
     let ghost items = iter.rest();
     let ghost nk = n_ok(items);
     let ghost ents = oks(items, nk);
@@ -465,58 +523,67 @@ proof fn lemma_cnt_not_nan(n: nat)
         lemma_n_ok_bounds(items);
         assert(items.subrange(0, items.len() as int) =~= items);
     }
-//@loop 1
+
+    assert((v.len()) == ((end - start) as usize));
+    v.fill(fconst_f64_nan());
+    loop 
         invariant_except_break
-            [[L: be/loop/progress]]
+            
             0 <= j <= nk,
         invariant
-            [[L: be/loop/frame]]
+            
             items == old(iter).rest(), nk == n_ok(items), ents == oks(items, nk), 0 <= nk <= items.len(),
             forall|i: int| 0 <= i < nk ==> (#[trigger] items[i]) is Ok,
             nk < items.len() ==> items[nk] is Err,
             start <= end, end - start <= i32::MAX, v@.len() == end - start,
             bb_answer(ents, start, end), is_nan_spec(spec_f64_nan()),
             iter.rest() == items.subrange(j, items.len() as int),
-            [[L: be/loop/each_cell_counts_the_entries_so_far]]
+            
             forall|q: int| 0 <= q < v@.len() ==> #[trigger] v@[q] == cell_of(count_at(ents, j, start + q)),
         ensures
-            [[L: be/loop/exit_all_consumed]]
+            
             j == nk, nk == items.len(),
         decreases
-            [[L: be/loop/termination]]
+            
             items.len() - j,
-//@at /let interval = interval\?;/ before
+{
+        let interval = match iter.next() { None => { break; } Some(r__) => r__ };
+
         proof {
             assert(iter.rest() =~= items.subrange(j + 1, items.len() as int));
             assert(interval == items[j]);
             if interval is Err { assert(j == nk); }
         }
-//@at /let interval = interval\?;/ after
+        let interval = interval?;
+
         proof {
             assert(j < nk);
             assert(interval == ents[j]);
             assert(ents[j].start <= ents[j].end && ents[j].end <= i32::MAX && start <= ents[j].end && ents[j].start <= end);
         }
-//@at /let interval_end = / after
+        let interval_start = ((interval.start as i32) - start) as usize;
+        let interval_end = ((interval.end as i32) - start) as usize;
+
         proof {
             assert(interval_start == clamp_lo(interval.start, start, end) - start
-                && interval_end == clamp_hi(interval.end, start, end) - start); [[L: be/cell_range_is_the_entry_clamped_to_the_request]]
+                && interval_end == clamp_hi(interval.end, start, end) - start); 
             assert(interval_end <= v@.len());
         }
-//@loop 2
+        for i in interval_start..interval_end 
             invariant
-                [[L: be/inner/frame]]
+                
                 0 <= j < nk, interval == ents[j], ents == oks(items, nk),
                 start <= end, end - start <= i32::MAX, v@.len() == end - start,
                 bb_answer(ents, start, end), is_nan_spec(spec_f64_nan()),
                 interval_start == clamp_lo(interval.start, start, end) - start,
                 interval_end == clamp_hi(interval.end, start, end) - start,
                 interval_end <= v@.len(),
-                [[L: be/inner/cells_up_to_i_count_this_entry_too]]
+                
                 forall|q: int| interval_start <= q < i ==> #[trigger] v@[q] == cell_of(count_at(ents, j + 1, start + q)),
-                [[L: be/inner/other_cells_unchanged]]
+                
                 forall|q: int| 0 <= q < v@.len() && !(interval_start <= q < i) ==> #[trigger] v@[q] == cell_of(count_at(ents, j, start + q)),
-//@at /let val = \*v\.index_mut\(i\);/ before
+{
+
             proof {
                 float_ax::float_det();
                 let n = count_at(ents, j, start + i);
@@ -524,10 +591,13 @@ proof fn lemma_cnt_not_nan(n: nat)
                 assert(count_at(ents, j + 1, start + i) == n + 1);
                 assert(v@[i as int] == cell_of(n));
                 if n >= 1 { lemma_cnt_not_nan(n); }
-                assert(is_nan_spec(v@[i as int]) <==> n == 0); [[L: be/a_cell_is_nan_exactly_while_no_entry_covers_it]]
+                assert(is_nan_spec(v@[i as int]) <==> n == 0); 
                 assert(cell_of(n + 1) == if n == 0 { 1.0f64 } else { cell_of(n).add_spec(1.0f64) });
             }
-//@loopend 1
+            let val = *v.index_mut(i);
+            *v.index_mut(i) = if val.is_nan() { 1.0 } else { val + 1.0 };
+        }
+    
         proof {
             // outside the clamped range the entry does not cover the base: the count is unchanged
             assert forall|q: int| 0 <= q < v@.len() implies #[trigger] v@[q] == cell_of(count_at(ents, j + 1, start + q)) by {
@@ -538,117 +608,139 @@ proof fn lemma_cnt_not_nan(n: nat)
             }
             j = j + 1;
         }
-//@at /^\s*let n__ = v\.len\(\);/ before
+}
+
     proof {
         assert(ents =~= oks(items, items.len() as int));
     }
-//@loop 3
+    let n__ = v.len();
+    for i__2 in 0..n__ 
         invariant
-            [[L: be/final/frame]]
+            
             v@.len() == end - start, n__ == v@.len(), j == nk, nk == items.len(), ents == oks(items, nk),
-            [[L: be/final/counted_cells_kept_uncovered_replaced_up_to_i]]
+            
             forall|q: int| 0 <= q < i__2 && count_at(ents, nk, start + q) == 0 ==> #[trigger] v@[q] == missing,
             forall|q: int| 0 <= q < i__2 && count_at(ents, nk, start + q) > 0 ==> #[trigger] v@[q] == cnt_f(count_at(ents, nk, start + q)),
             forall|q: int| i__2 <= q < v@.len() ==> #[trigger] v@[q] == cell_of(count_at(ents, nk, start + q)),
-//@at /let val = v\.index_mut\(i__2\);/ before
+{
+
         proof {
             ax_nan_const_is_nan();
             let n = count_at(ents, nk, start + i__2);
             if n >= 1 { lemma_cnt_not_nan(n); }
             assert(is_nan_spec(v@[i__2 as int]) <==> n == 0);
         }
-//@end
+        let val = v.index_mut(i__2);
+        *val = if val.is_nan() { missing } else { *val };
+    }
+    Ok(())
+}
 
 // =====================================================================================
 // range defaulting: start_end_length_inner and its two callers
 // =====================================================================================
 // Substitutions: `bigtools::ChromInfo` -> `ChromInfo`; `PyResult<T>` -> `Result<T, PyErr>`; the `find` closure chain ->
 // `find_chrom(chroms, chrom_name)`; `PyErr::new::<exceptions::X, _>(format!(..))` -> `py_err_new(PyExc::X)`.
-//@extract fn pybigtools/src/lib.rs start_end_length_inner
-//@sub /bigtools::ChromInfo/ => ChromInfo min=0
-//@sub /PyResult<\(i32, i32, i32\)>/ => Result<(i32, i32, i32), PyErr> min=1
-//@sub /chroms\.into_iter\(\)\.find\(\|x\| x\.name == chrom_name\)/ => find_chrom(chroms, chrom_name) min=0
-//@sub /PyErr::new::<exceptions::(\w+), _>\(format!\([^;]*?\)\)\)/ => py_err_new(PyExc::\1)) min=0
-//@ret r
-//@sig
+fn start_end_length_inner(
+    chrom_name: &str,
+    chroms: &[ChromInfo],
+    start: Option<i32>,
+    end: Option<i32>,
+) -> (r: Result<(i32, i32, i32), PyErr>)
     requires
-        [[L: sel/pre_chromosome_lengths_fit_i32]]
+        
         lengths_fit_i32(chroms@),
     ensures
-        [[L: sel/unknown_chromosome_is_a_key_error]]
+        
         r is Err <==> none_named(chroms@, chrom_name@),
         r matches Err(e) ==> e.kind == PyExc::PyKeyError,
-        [[L: sel/none_defaults_to_zero_and_chromosome_length]]
+        
         r matches Ok(t) ==> exists|i: int| #[trigger] first_named(chroms@, chrom_name@, i) && defaulted(t, start, end, chroms@[i].length),
-        [[L: sel/explicit_bounds_are_passed_through_unvalidated]]
+        
         // there is NO validation: start >= end, negative bounds, bounds past the chromosome end are all accepted
         r matches Ok(t) ==> (start matches Some(s) ==> t.0 == s) && (end matches Some(e) ==> t.1 == e),
-//@end
+{
+    let chrom = find_chrom(chroms, chrom_name);
+    let length = match chrom {
+        None => {
+            return Err(py_err_new(PyExc::PyKeyError))
+        }
+        Some(c) => c.length as i32,
+    };
+    return Ok((start.unwrap_or(0), end.unwrap_or(length), length));
+}
 
-//@extract fn pybigtools/src/lib.rs bigwig_start_end_length
-//@sub /&BigWigReadRaw<R>/ => &VBbi min=1
-//@sub /<R>/ => "" min=0
-//@sub /PyResult<\(i32, i32, i32\)>/ => Result<(i32, i32, i32), PyErr> min=1
-//@ret r
-//@sig
+fn bigwig_start_end_length(
+    bbi: &VBbi,
+    chrom_name: &str,
+    start: Option<i32>,
+    end: Option<i32>,
+) -> (r: Result<(i32, i32, i32), PyErr>)
     requires
-        [[L: bwsel/pre_chromosome_lengths_fit_i32]]
+        
         lengths_fit_i32(bbi.chrom_list()),
     ensures
-        [[L: bwsel/same_as_inner_on_the_files_chromosome_list]]
+        
         r is Err <==> none_named(bbi.chrom_list(), chrom_name@),
         r matches Err(e) ==> e.kind == PyExc::PyKeyError,
         r matches Ok(t) ==> exists|i: int| #[trigger] first_named(bbi.chrom_list(), chrom_name@, i) && defaulted(t, start, end, bbi.chrom_list()[i].length),
-//@end
+{
+    let chroms = bbi.chroms();
+    start_end_length_inner(chrom_name, chroms, start, end)
+}
 
-//@extract fn pybigtools/src/lib.rs bigbed_start_end_length
-//@sub /&BigBedReadRaw<R>/ => &VBbi min=1
-//@sub /<R>/ => "" min=0
-//@sub /PyResult<\(i32, i32, i32\)>/ => Result<(i32, i32, i32), PyErr> min=1
-//@ret r
-//@sig
+fn bigbed_start_end_length(
+    bbi: &VBbi,
+    chrom_name: &str,
+    start: Option<i32>,
+    end: Option<i32>,
+) -> (r: Result<(i32, i32, i32), PyErr>)
     requires
-        [[L: bbsel/pre_chromosome_lengths_fit_i32]]
+        
         lengths_fit_i32(bbi.chrom_list()),
     ensures
-        [[L: bbsel/same_as_inner_on_the_files_chromosome_list]]
+        
         r is Err <==> none_named(bbi.chrom_list(), chrom_name@),
         r matches Err(e) ==> e.kind == PyExc::PyKeyError,
         r matches Ok(t) ==> exists|i: int| #[trigger] first_named(bbi.chrom_list(), chrom_name@, i) && defaulted(t, start, end, bbi.chrom_list()[i].length),
-//@end
+{
+    let chroms = bbi.chroms();
+    start_end_length_inner(chrom_name, chroms, start, end)
+}
 
 // =====================================================================================
 // the range handed to the reader: one line of intervals_to_array / entries_to_array, carved out
 //   `let (intervals_start, intervals_end) = (start.max(0) as u32, end.min(length) as u32);`
 // =====================================================================================
-//@extract fn pybigtools/src/lib.rs intervals_to_array
-//@presub /\A.*?\n[ \t]*(let \(intervals_start, intervals_end\) =[^;]*;).*\Z/ => fn bw_query_range(start: i32, end: i32, length: i32) -> (u32, u32) {\n    \1\n    (intervals_start, intervals_end)\n} min=1 count=1
-//@ret r
-//@sig
+fn bw_query_range(start: i32, end: i32, length: i32) -> (r: (u32, u32))
     requires
-        [[L: bwq/pre_request_reaches_into_the_chromosome]]
+        
         // `x as u32` wraps for negative x: the request must not lie entirely below 0 (robustness remark R3)
         0 <= length, 0 <= end,
     ensures
-        [[L: bwq/query_is_the_request_clipped_to_the_chromosome]]
+        
         r.0 == (if start > 0 { start } else { 0i32 }), r.1 == (if end < length { end } else { length }),
-        [[L: bwq/query_lies_inside_the_request]]
+        
         // what turns the reader's "clipped to the query" into to_array's `bw_answer(.., start, end)`
         start <= r.0, r.1 <= end,
-//@end
-//@extract fn pybigtools/src/lib.rs entries_to_array
-//@presub /\A.*?\n[ \t]*(let \(intervals_start, intervals_end\) =[^;]*;).*\Z/ => fn bb_query_range(start: i32, end: i32, length: i32) -> (u32, u32) {\n    \1\n    (intervals_start, intervals_end)\n} min=1 count=1
-//@ret r
-//@sig
+{
+    let (intervals_start, intervals_end) = (start.max(0) as u32, end.min(length) as u32);
+    (intervals_start, intervals_end)
+}
+fn bb_query_range(start: i32, end: i32, length: i32) -> (r: (u32, u32))
     requires
-        [[L: bbq/pre_request_reaches_into_the_chromosome]]
+        
         0 <= length, 0 <= end,
     ensures
-        [[L: bbq/query_is_the_request_clipped_to_the_chromosome]]
+        
         r.0 == (if start > 0 { start } else { 0i32 }), r.1 == (if end < length { end } else { length }),
-        [[L: bbq/query_lies_inside_the_request]]
+        
         start <= r.0, r.1 <= end,
-//@end
+{
+    let (intervals_start, intervals_end) = (start.max(0) as u32, end.min(length) as u32);
+    (intervals_start, intervals_end)
+}
 
 } // verus!
 fn main() {}
+
